@@ -3,7 +3,7 @@
 
   vcheck.py <Cxx> [--tier quick|thorough] [--only substr]   run the check of one property
   vcheck.py replay <file>                                   re-run a replay file natively
-  vcheck.py baseline [Cxx ...]                              (maintenance) rewrite baseline/obligations.json
+  vcheck.py baseline [thorough] [Cxx ...]                   (maintenance) rewrite baseline/obligations.json
   vcheck.py list
 
 Exit codes: 0 all obligations discharged (known findings printed), 1 violation
@@ -355,13 +355,31 @@ def do_replay(fn):
     return 0
 
 
+THOROUGH_BASELINE = False
+
+
 def do_baseline(props):
+    global THOROUGH_BASELINE
+    if props and props[0] == 'thorough':
+        THOROUGH_BASELINE = True
+        props = props[1:]
     base = load_json(BASELINE_FILE, {})
     reg = load_registry()
     for prop in (props or sorted(reg)):
         rc = run_property(prop, 'quick', write_evidence=False)
         last = run_property.last
-        base[prop] = dict(proved=sorted(last['proved']),
+        proved = set(last['proved'])
+        if THOROUGH_BASELINE:
+            # obligations that only the thorough tier generates are also remembered as "proved on the baseline"
+            keep = dict(last)
+            rc2 = run_property(prop, 'thorough', write_evidence=False)
+            proved |= set(run_property.last['proved'])
+            last = keep
+            print("baseline %s (thorough): rc=%d" % (prop, rc2))
+        else:
+            quick_cases = set(pc['case'] for pc in last['per_case'])
+            proved |= set(x for x in base.get(prop, {}).get('proved', []) if x.split('::')[0] not in quick_cases)
+        base[prop] = dict(proved=sorted(proved),
                           case_obligations=dict((pc['case'], pc['obligations']) for pc in last['per_case']),
                           case_ast=dict((pc['case'], pc['ast']) for pc in last['per_case']))
         print("baseline %s: rc=%d proved=%d" % (prop, rc, len(last['proved'])))
